@@ -40,7 +40,7 @@ Definition gens_spec (obs : bool) (t g0 n0 k0 : Z) (cancelled : bool) (os : list
         let ni := n0 + Z.of_nat i in
         let ev := EEval t gi t ki in
         match o with
-        | EvalError =>
+        | EvalError | SolvedError | CancelError =>
           {| g_ev := prefix_gens obs t g0 k0 i ++ [ev]; g_abort := Some ErrEval;
              g_cancelled := false; g_n := ni; g_turns := ki |}
         | Cancel =>
@@ -318,4 +318,57 @@ Proof.
     apply length_zero_iff_nil in Hf. apply length_zero_iff_nil in Hr. rewrite Hf, Hr.
     unfold when. destruct obs; cbn [filter is_finish is_record app length];
       destruct (Z.eqb t' t); cbn [length app]; rewrite ?app_length; cbn [length]; lia.
+Qed.
+
+(* 6. an evaluator error - alone, or together with a "solved" mark or a cancellation made in the same
+      call - ends the run at once: the failing evaluation is the last event, nothing is recorded for
+      that trial, no observer is told, and the status is the evaluator's error *)
+Definition is_error (o : outcome) : bool :=
+  match o with EvalError | SolvedError | CancelError => true | _ => false end.
+
+Lemma gen_loop_error_last obs t os : forall g n k c,
+    g_abort (gen_loop obs t g n k c os) = Some ErrEval ->
+    exists ev' g' k', g_ev (gen_loop obs t g n k c os) = ev' ++ [EEval t g' t k'] /\ g <= g' /\
+                      is_error (outcome_at os g g') = true.
+Proof.
+  induction os as [|o os IH]; intros g n k c; cbn [gen_loop]; [discriminate|].
+  destruct c; [discriminate|].
+  cbn [outcome_at].
+  destruct o; cbn [is_solved is_cancel orb g_abort g_ev]; try discriminate;
+    try (intros _; exists [], g, k; rewrite Z.eqb_refl; split; [reflexivity | split; [lia | reflexivity]]).
+  intros H. destruct (IH _ _ _ _ H) as (ev' & g' & k' & E & Hle & Herr).
+  exists (EEval t g t k :: ENext t g :: when obs (EEpoch t g) ++ ev'), g', k'.
+  rewrite E. split; [|split].
+  - cbn [app]. now rewrite app_assoc.
+  - lia.
+  - destruct (Z.eqb_spec g' g) as [->|_]; [lia | exact Herr].
+Qed.
+
+Theorem error_ends_run obs script : forall t c tr,
+    trial_loop obs t c script = (tr, ErrEval) ->
+    exists tr' t' g k, tr = tr' ++ [EEval t' g t' k].
+Proof.
+  induction script as [|os script IH]; intros t c tr; cbn [trial_loop]; [discriminate|].
+  destruct (g_abort (gen_loop obs t 0 0 0 c os)) as [st|] eqn:Ea.
+  - intros H. injection H as <- ->.
+    destruct (gen_loop_error_last obs t os 0 0 0 c Ea) as (ev' & g' & k' & E & _ & _).
+    exists (ESpawn t :: when obs (EStart t) ++ ev'), t, g', k'. rewrite E. cbn [app]. now rewrite app_assoc.
+  - destruct (trial_loop obs (t + 1) (g_cancelled (gen_loop obs t 0 0 0 c os)) script) as [tl st] eqn:Et.
+    intros H. injection H as <- ->.
+    destruct (IH _ _ _ Et) as (tr' & t' & g & k & ->).
+    exists (ESpawn t :: when obs (EStart t) ++ g_ev (gen_loop obs t 0 0 0 c os) ++
+            ERecord t (g_n (gen_loop obs t 0 0 0 c os)) (g_turns (gen_loop obs t 0 0 0 c os)) ::
+            when obs (EFinish t (g_n (gen_loop obs t 0 0 0 c os))) ++ tr'), t', g, k.
+    cbn [app]. f_equal. rewrite <- !app_assoc. cbn [app]. do 2 f_equal. now rewrite <- app_assoc.
+Qed.
+
+(* and an error outcome that is reached does end it: the generation loop that meets an error outcome
+   before any solved or cancelling one aborts with the evaluator's error *)
+Theorem reached_error_aborts obs t os o i : forall g n k,
+    first_decisive os = Some (i, o) -> is_error o = true ->
+    g_abort (gen_loop obs t g n k false os) = Some ErrEval.
+Proof.
+  intros g n k Hf He. rewrite gen_loop_refines. unfold gens_spec.
+  destruct os as [|o0 os0]; [discriminate|]. rewrite Hf.
+  destruct o; try discriminate; reflexivity.
 Qed.
